@@ -118,7 +118,7 @@ static int scan_cb(YR_SCAN_CONTEXT* ctx, int msg, void* data, void* ud) {
         YR_MATCH* m; int fm = 1;
         if (!fs) ob_putc(&out, ','); fs = 0;
         ob_putc(&out, '['); ob_jstr(&out, s->identifier, -1); ob_puts(&out, ",[");
-        yr_string_matches_foreach(ctx, s, m) {
+        for (m = ctx->matches[s->idx].head; m != NULL; m = m->next) { /* includes private matches (the public macro skips them) */
           if (!fm) ob_putc(&out, ','); fm = 0;
           ob_putc(&out, '['); ob_int(&out, m->base + m->offset); ob_putc(&out, ','); ob_int(&out, m->match_length);
           ob_putc(&out, ','); ob_int(&out, m->xor_key); ob_putc(&out, ','); ob_int(&out, m->is_private ? 1 : 0);
